@@ -108,7 +108,7 @@ m = {
  "hooks": {"guard": "cargo feature `verif-hooks` of typify-impl",
            "enable": "harness crates depend on /repo/typify-impl with features=[\"verif-hooks\"] (path dependency, rebuilt from the working tree by every check)",
            "baseline_off_cmd": "cd /repo && cargo test --workspace --no-fail-fast --offline",
-           "source_commits": ["e1f558d", "efea458"],
+           "source_commits": ["e1f558d", "efea458", "24ee8b3"],
            "add_only": True},
  "engines": [
    {"name": "tlc", "path": "bin/tlc.sh", "serves_properties": sorted(CLAIMED),
